@@ -97,6 +97,12 @@ theorem rangeop_member_agrees (op : RangeOp) (p q : Pfx) (hq : q.Valid)
     (∃ r, memberRange op p = some r ∧ r.mem q = true) ↔ opSet op (· = p) q :=
   member_mem op p q hq hw
 
+/-- … and on sets: rpsl applies the operator to `output.ranges()`; whatever list of well-formed
+ranges generic-ip aggregates the set into, the surviving ranges denote the model's `applyOp` -/
+theorem rangeop_set_agrees (op : RangeOp) (rs : List Range) (hrs : ∀ r ∈ rs, r.Wf) (q : Pfx) :
+    applyOp op (PSet.ofRanges rs) q = true ↔ PSet.ofRanges (applyRanges op rs) q = true :=
+  applyOp_ofRanges op rs hrs q
+
 /-! ### the code as it is: route-set members with a range operator are dropped (D16) -/
 
 def cexDb : Db :=
@@ -118,6 +124,27 @@ theorem routeset_range_member_dropped_cex :
 example :
     okAt (evaluate .fixed cexDb 1 (.prefixSet (.named (.routeSet "RS-X")) .none) [] Ev.fresh).1 ⟨.v4, 20, 9⟩
       = true := by decide
+
+/-! ### the parser in front of the evaluator: operator precedence -/
+
+/-- The rpsl crate's grammar gives `AND`, `OR` equal precedence, nests to the right, and lets `NOT`
+extend over everything to its right: `A AND B OR C` is read as `A AND (B OR C)` and `NOT A AND B`
+as `NOT (A AND B)`, where RFC 2622 §5.4 prescribes `(A AND B) OR C` and `(NOT A) AND B`.  With
+`A, B, C = {10.0.0.0/8}, {11.0.0.0/8}, {12.0.0.0/8}` the results differ on 12.0.0.0/8 resp.
+11.0.0.0/8 (spec class `operator-precedence`; `eval_eq_denote` is about the tree the parser built). -/
+theorem operator_precedence_cex :
+    let a : Expr := .prefixSet (.lit [(⟨.v4, 10, 8⟩, .none)]) .none
+    let b : Expr := .prefixSet (.lit [(⟨.v4, 11, 8⟩, .none)]) .none
+    let c : Expr := .prefixSet (.lit [(⟨.v4, 12, 8⟩, .none)]) .none
+    parseCrate (0, a) [(.and, 0, b), (.or, 0, c)] = .and a (.or b c) ∧
+    parseRfc (0, a) [(.and, 0, b), (.or, 0, c)] = .or (.and a b) c ∧
+    okAt (evaluate .pinned cexDb 1 (parseCrate (0, a) [(.and, 0, b), (.or, 0, c)]) [] Ev.fresh).1 ⟨.v4, 12, 8⟩ = false ∧
+    okAt (evaluate .pinned cexDb 1 (parseRfc (0, a) [(.and, 0, b), (.or, 0, c)]) [] Ev.fresh).1 ⟨.v4, 12, 8⟩ = true ∧
+    parseCrate (1, a) [(.and, 0, b)] = .not (.and a b) ∧
+    parseRfc (1, a) [(.and, 0, b)] = .and (.not a) b ∧
+    okAt (evaluate .pinned cexDb 1 (parseCrate (1, a) [(.and, 0, b)]) [] Ev.fresh).1 ⟨.v4, 12, 8⟩ = true ∧
+    okAt (evaluate .pinned cexDb 1 (parseRfc (1, a) [(.and, 0, b)]) [] Ev.fresh).1 ⟨.v4, 12, 8⟩ = false := by
+  decide
 
 /-! ### Non-vacuity (database `exDb` of C17: cyclic as-sets) -/
 
